@@ -209,7 +209,11 @@ Fixpoint set_nth {X} (l : list X) (n : nat) (d v : X) : list X :=
 (** * histories: the operations of Run/StoreRun.v, plus
       (9)                 save now
       (10 n)              add_new_substore("sub<n>", "sub<n>.store.stam.json")
-      (11 kind h k)       associate_substore(item h of kind 0 resource / 1 dataset / 2 annotation, sub-store k) *)
+      (11 kind h k)       associate_substore(item h of kind 0 resource / 1 dataset / 2 annotation, sub-store k)
+      (12 kind h where)   export a copy: kind 0 resource.to_txt_file, 1 resource.to_json_file, 2 dataset.to_json_file,
+                          3 store.to_json_file (which also flushes, see sop_of_sx); where 0 = backup/<own file name>,
+                          1 = backup/<another name>
+      (13)                the members that qualify get their stand-off file names now (nothing is written) *)
 Definition SUB := LIT "sub".
 Definition APP_STORE := LIT ".store.stam.json".
 Definition hstep (st : store * owners) (o : sx) : store * owners :=
@@ -233,6 +237,7 @@ Definition hstep (st : store * owners) (o : sx) : store * owners :=
              | Some _ => (s, mkown (ow_subs ow) (ow_res ow) (ow_set ow) (set_nth (ow_ann ow) h None (Some k)))
              | None => (s, ow) end
       end
+  | 12%Z | 13%Z => (s, ow)      (* exporting a copy elsewhere / naming the stand-off files: the store is as it was *)
   | _ => (fst (step s (op_of_sx o)), ow)
   end.
 
@@ -241,7 +246,9 @@ Definition want_files (rm sm : nat) (st : store * owners) : files :=
   match encode_o (view (fst st) rm sm) (snd st) with Some d => snd d | None => [] end.
 Definition sub_names (st : store * owners) : list str := map snd (ow_subs (snd st)).
 
-Definition sop_of_sx (o : sx) : sop sx := if Z.eqb (sx_Z (sx_nth 0 o)) 9 then SSave else SMod o.
+(* writing the store document somewhere else serialises the members too: their flagged files are flushed *)
+Definition sop_of_sx (o : sx) : sop sx :=
+  if Z.eqb (sx_Z (sx_nth 0 o)) 9 || (Z.eqb (sx_Z (sx_nth 0 o)) 12 && Z.eqb (sx_Z (sx_nth 1 o)) 3) then SSave else SMod o.
 Definition run_saves (ops : list sx) (rm sm : nat) : (store * owners) * fstate :=
   save_run hstep (want_files rm sm) sub_names (map sop_of_sx ops) (empty_store, no_owners) (mkfs [] []).
 
